@@ -259,3 +259,18 @@ prop("C14", "exploration",
      ["methods that only check the token for API consistency (accounts, post_tx, get_stored_tx, set_active_account) and pure readers are only required to leave the store unchanged",
       "start_updater's own return value is a don't-care (the refresh it attempts fails inside the thread)"],
      required_hist=["wrong-token:invalid-mask", "right-token:wrote-state", "differential:equal-throughout", "closed-wallet:refused", "reopened:works-with-new-token"])
+
+prop("C16", "exploration",
+     "chain histories produced by the history engine (2 wallets x 2 accounts, sends, invoices, late locks, self-sends, cancels before broadcast, coinbases to "
+     "either wallet, 70-150 steps) settled and refreshed; then per seed: (a) a fresh wallet created from the phrase and scanned (start None or 1) with node "
+     "page sizes {as asked,1,2,3,7,1000}: its Unspent records must be exactly the seed's commitments in the UTXO set (every commitment the harness ever saw "
+     "for that seed) with the chain's value, height, coinbase flag, maturity and account, per-account spendable/immature must equal the values computed from "
+     "chain truth, the total spendable must equal the original wallet's (when it holds no reservations), and a second scan must change nothing; (b) the "
+     "original wallet with injected divergences (deleted output, Unspent->Spent, Unspent->Locked with a fabricated pending entry, stale Unconfirmed output) "
+     "scanned with/without delete_unconfirmed: same comparison, no pending records left with delete_unconfirmed, second scan changes nothing. "
+     "distinct = (kind, wallet, outputs in UTXO, page size, start / injected set); non-trivial = all",
+     [{"name": "c16", "cmd": "c16", "shards": {"quick": 14, "thorough": 16}, "crash_is_violation": True}],
+     {"quick": 90, "thorough": 600},
+     ["balances are read after a refresh of the account (the figures are relative to the account's confirmed height)",
+      "mid-chain start heights are not judged for completeness"],
+     required_hist=["restore:matches-chain-truth", "restore:second-scan-no-change", "repair:matches-chain-truth", "repair:second-scan-no-change", "restore:spendable-equals-original"])
